@@ -611,20 +611,24 @@ Definition two_cycle_members (fuel : nat) (cls : list clause) (co : list N) (a1 
     existsb (fun g2 => negb (ty_eqb g1 g2) && memT g2 (reach_plus fuel cls g1) && memT g1 (reach_plus fuel cls g2))
             (reach_or_nil fuel cls a2)) (reach_or_nil fuel cls a1).
 
-Fixpoint f7n_conj (fuel : nat) (P : program) (env : list clause) (rho : list ty) (g : goal) : bool :=
+Fixpoint has_not (g : goal) : bool :=
   match g with
-  | GNot g' =>
-      pairs_later (two_cycle_members fuel (allc P env) (pcoind P))
-                  (filter groundb (map (subst (listth rho)) (goal_atoms g')))
-      || f7n_conj fuel P env rho g'
-  | GAnd g1 g2 => f7n_conj fuel P env rho g1 || f7n_conj fuel P env rho g2
-  | GForall g' => f7n_conj fuel P env (TPh (fresh P env rho g') :: rho) g'
-  | GIf hs g' => f7n_conj fuel P (map (inst_hyp rho) hs ++ env) rho g'
+  | GNot _ => true
+  | GAnd g1 g2 => has_not g1 || has_not g2
+  | GForall g' | GExists g' | GIf _ g' => has_not g'
   | _ => false
   end.
 
+(** The goal contains a [not], and two of its (ground) atoms at different positions — inside or
+    outside the [not] — reach two different members of one coinductive cycle: one of the two
+    tables is then created as a non-root member of the other's cycle and consumed again by the
+    negative literal ([S1: C, not { W<S0>: C }] as well as [not { S0: C, S1: C }]). *)
+Definition f7n_conj (fuel : nat) (P : program) (g : goal) : bool :=
+  has_not g &&
+  pairs_later (two_cycle_members fuel (pclauses P) (pcoind P)) (filter groundb (goal_atoms g)).
+
 Definition f7n_class (fuel : nat) (P : program) (g : goal) : bool :=
-  goal_any_neg (fun cls a => f7n_atom fuel cls (pcoind P) a) P [] [] false g || f7n_conj fuel P [] [] g.
+  goal_any_neg (fun cls a => f7n_atom fuel cls (pcoind P) a) P [] [] false g || f7n_conj fuel P g.
 
 (** F7q for goals with unknowns: some candidate instantiation of the unknowns makes the goal
     look at an atom of the F7n/F7q kind (for a non-ground goal every ground atom is a
@@ -736,7 +740,8 @@ Module ContractExamples.
     f7n_class 50 Pring (GNot (GAnd (GAtom (C (K 0))) (GAtom (C (K 1))))) = true /\
     eval_goal 50 Pring [] [] (GNot (GAnd (GAtom (C (K 0))) (GAtom (C (K 1))))) = Some false /\
     f7n_class 50 Pring (GNot (GAtom (C (K 0)))) = false /\
-    f7n_class 50 Pring (GAnd (GAtom (C (K 0))) (GAtom (C (K 1)))) = false.
+    f7n_class 50 Pring (GAnd (GAtom (C (K 0))) (GAtom (C (K 1)))) = false /\
+    f7n_class 50 Pring (GAnd (GAtom (C (K 1))) (GNot (GAtom (C (K 0))))) = true.
   Proof. repeat split; reflexivity. Qed.
   (* F1 through hypotheses: exists<A,B> { if (B: Tr; A: Tr) { A: Tr } } with SLG's definite [^0, ^0];
      and a two-unknown goal without hypotheses over linear heads is OUTSIDE the class *)
